@@ -100,10 +100,11 @@ def HLine.isBody : HLine → Bool
   | .body _ => true
   | _ => false
 
-/-- a heading block of file `p`: its path line, then at least one result line -/
+/-- a heading block of file `p`: its path line (or a bare `path: binary file matches` message line), then
+the result lines -/
 def wfHBlock (p : Nat) (b : List HLine) : Bool :=
   match b with
-  | .head q :: tl => q == p && !tl.isEmpty && tl.all HLine.isBody
+  | .head q :: tl => q == p && tl.all HLine.isBody
   | _ => false
 
 def joinHLines (k : Nat) : List (Nat × List HLine) → List HLine
